@@ -174,5 +174,6 @@ pub fn run(o: &Opts) -> Report {
         for ((req, m), i) in reqs.iter().zip(model.iter()).zip(impls.iter()) { if m != i { rep.disagree("parse", req, m, i); } }
     }
     crate::pcorr::run_generic(&mut rep, o, 0xC10);
+    crate::usage::run_err(&mut rep, o);
     rep
 }
